@@ -580,11 +580,70 @@ def run_pred(c):
     raise KeyError(cfg)
 
 
+# --------------------------------------------------------------------------------------------- predicates on mixed collections
+@st.composite
+def mixed_case(draw, tier="quick"):
+    what = draw(st.sampled_from(["collinear2", "concurrent2", "coplanar3"]))
+    k = draw(st.integers(2, 4))
+    return {"what": what, "pos": [{"v": [draw(C.ints(4)) for _ in range(12)], "mode": draw(st.sampled_from(["all", "first", "later", "all"])), "c": draw(st.sampled_from([2, -1, 3]))} for _ in range(k)],
+            "bcast_first": draw(st.booleans())}
+
+
+def run_mixed(c):
+    """is_collinear / is_concurrent with four arguments and is_coplanar with five: every collection position has its own exact
+    truth value (all dependent / already the first n independent / only a later argument off)"""
+    what = c["what"]
+    d = 2 if what.endswith("2") else 3
+    n = d + 1
+    nargs = n + 1
+    cols = [[] for _ in range(nargs)]
+    truth = []
+    for ps in c["pos"]:
+        v = ps["v"]
+        base = [np.array([int(x / 1) for x in v[i * n : i * n + n]], float) for i in range(d)]
+        for b in base:
+            b[-1] = 1 if what != "concurrent2" else b[-1]
+        if X.rank([[Fraction(int(x)) for x in b] for b in base]) < d:
+            raise Skip("dependent base")
+        dep1 = sum((i + 1) * b for i, b in enumerate(base))  # in the span
+        dep2 = sum((ps["c"] if i == 0 else 1) * b for i, b in enumerate(base))
+        off = np.array([int(x) for x in v[8 : 8 + n]], float)
+        if what != "concurrent2":
+            off[-1] = 1
+        if X.rank([[Fraction(int(x)) for x in b] for b in base + [off]]) < n:
+            raise Skip("accidentally dependent")
+        mode = ps["mode"]
+        if mode == "all":
+            els, t = base + [dep1, dep2], True
+        elif mode == "first":
+            els, t = base + [off, dep2], False
+        else:
+            els, t = base + [dep1, off], False
+        for j in range(nargs):
+            cols[j].append(els[j])
+        truth.append(t)
+    cls = PointCollection if what != "concurrent2" else LineCollection
+    fn = {"collinear2": is_collinear, "concurrent2": is_concurrent, "coplanar3": is_coplanar}[what]
+    args = [cls(np.array(col)) for col in cols]
+    if c["bcast_first"] and all(np.array_equal(cols[0][0], x) for x in cols[0]):
+        args[0] = (Point if what != "concurrent2" else Line)(cols[0][0])
+    r, f = call(f"mixed:{what}", fn, *args)
+    if f:
+        return [f]
+    ck = Checker()
+    r = np.asarray(r)
+    ck.check(r.shape == (len(truth),) and np.array_equal(r, np.array(truth)), f"mixed:{what}:per-position-truth", (r.tolist(), truth, [p["mode"] for p in c["pos"]]))
+    return ck.result()
+
+
 LAWS = [
     Law("line2d", lambda tier: l2_case(tier), run_l2, l2_nontrivial, l2_labels, {"quick": 1500, "thorough": 30000},
         "2D line: perpendicular/parallel/project/mirror + base_point/direction/basis_matrix/general_point", shard=300, mandatory=("point-on-line", "mixed-mask", "vertical", "origin")),
     Law("subspace3d", lambda tier: s3_case(tier), run_s3, lambda c: c["shape"] != "generic" or "on" in c["where"][: max(1, c["n"])], s3_labels, {"quick": 1200, "thorough": 25000},
         "3D line / plane: perpendicular/parallel/project/mirror + helpers", shard=200, mandatory=("point-on-subspace", "mixed-mask")),
+    Law("predicates_mixed_collections", lambda tier: mixed_case(tier), run_mixed, lambda c: len({p["mode"] for p in c["pos"]}) > 1,
+        lambda c: [c["what"]] + sorted({p["mode"] for p in c["pos"]}), {"quick": 800, "thorough": 15000},
+        "is_collinear/is_concurrent (4 arguments) and is_coplanar (5 arguments) on collections whose positions have different truth values", shard=300),
     Law("predicates", lambda tier: pred_case(tier), run_pred, lambda c: True, lambda c: [c["cfg"], "true" if c["truth"] else "false"], {"quick": 2500, "thorough": 40000},
         "is_perpendicular / is_parallel / is_cocircular / is_collinear / is_coplanar / is_concurrent exact truth values; angle_bisectors", shard=400),
 ]
